@@ -552,7 +552,24 @@ func (s *Sim) dueFault(ps []*Task) (Fault, bool) {
 	// trigger is met fires and is consumed
 	for i, f := range s.faults {
 		due := false
-		if f.Point == "" {
+		if f.OpTag != "" {
+			inflight := false
+			for _, o := range s.ops {
+				if o.Op.Tag == f.OpTag && o.Invoked && !o.Returned && o.Gen == s.cur.Idx {
+					inflight = true
+				}
+			}
+			if inflight {
+				if f.Point == "" {
+					due = true
+				}
+				for _, p := range ps {
+					if p.point == f.Point {
+						due = true
+					}
+				}
+			}
+		} else if f.Point == "" {
 			due = s.sched.step >= f.Step
 		} else {
 			for _, p := range ps {
@@ -747,6 +764,9 @@ func (s *Sim) runClient(ctx context.Context, t *Task, g *Generation, ci int, ops
 			rec.Name = fmt.Sprintf("pre.%d", i)
 		} else {
 			rec.Name = fmt.Sprintf("g%d.c%d.%d", g.Idx, ci, i)
+		}
+		if op.Tag != "" {
+			rec.Name = op.Tag
 		}
 		rec.Marker = rec.Name
 		rec.Ledger = ((op.Ledger % len(s.media)) + len(s.media)) % len(s.media)
